@@ -73,6 +73,7 @@ type loopMeta struct {
 	Nested string // "", inner, sibling
 	Extra  string // "", continue, condvar, second-iv, flipvar, early-break, early-return
 	Hdr    string // how a top-tested loop declares its variable: "" (for v := ..), pre, assign, while
+	Swap   bool   // the test is written with the bound on the left: `n > i` for `i < n`
 }
 
 type fnMeta struct {
@@ -82,6 +83,10 @@ type fnMeta struct {
 }
 
 var cmps = []string{"<", "<=", ">", ">=", "!="}
+
+func mirrorCmp(c string) string {
+	return map[string]string{"<": ">", "<=": ">=", ">": "<", ">=": "<=", "!=": "!=", "==": "=="}[c]
+}
 
 func negCmp(c string) string {
 	return map[string]string{"<": ">=", "<=": ">", ">": "<=", ">=": "<", "!=": "=="}[c]
@@ -249,6 +254,14 @@ func genLoop(r *rand.Rand, b *strings.Builder, id *int, depth int, outerVar stri
 			extraUpd = fmt.Sprintf("d%d -= %s", L, stepExpr)
 		}
 	}
+	m.Swap = r.Intn(3) == 0
+	// tst renders `v <c> bound`, possibly mirrored (bound on the left)
+	tst := func(c string) string {
+		if m.Swap {
+			return fmt.Sprintf("%s %s %s", conv(bound), mirrorCmp(c), v)
+		}
+		return fmt.Sprintf("%s %s %s", v, c, conv(bound))
+	}
 	w("enter(%d)", L)
 	if extraDecl != "" {
 		w("%s", extraDecl)
@@ -257,16 +270,16 @@ func genLoop(r *rand.Rand, b *strings.Builder, id *int, depth int, outerVar stri
 	case "top":
 		switch m.Hdr {
 		case "":
-			w("for %s := %s; %s %s %s; %s {", v, conv(start), v, cmp, conv(bound), post)
+			w("for %s := %s; %s; %s {", v, conv(start), tst(cmp), post)
 		case "pre": // declared before the loop: no per-iteration copy of the variable
 			w("%s := %s", v, conv(start))
-			w("for ; %s %s %s; %s {", v, cmp, conv(bound), post)
+			w("for ; %s; %s {", tst(cmp), post)
 		case "assign":
 			w("var %s %s", v, typ)
-			w("for %s = %s; %s %s %s; %s {", v, conv(start), v, cmp, conv(bound), post)
+			w("for %s = %s; %s; %s {", v, conv(start), tst(cmp), post)
 		case "while":
 			w("%s := %s", v, conv(start))
-			w("for %s %s %s {", v, cmp, conv(bound))
+			w("for %s {", tst(cmp))
 		}
 		w("\t%s", recCall())
 		body(ind + "\t")
@@ -279,7 +292,7 @@ func genLoop(r *rand.Rand, b *strings.Builder, id *int, depth int, outerVar stri
 		}
 	case "breaktop": // exit test written as the condition to LEAVE
 		w("for %s := %s; ; %s {", v, conv(start), post)
-		w("\tif %s %s %s {", v, negCmp(cmp), conv(bound))
+		w("\tif %s {", tst(negCmp(cmp)))
 		w("\t\tbreak")
 		w("\t}")
 		w("\t%s", recCall())
@@ -287,7 +300,7 @@ func genLoop(r *rand.Rand, b *strings.Builder, id *int, depth int, outerVar stri
 		w("}")
 	case "breaktop-neg": // exit test written as the negated stay condition
 		w("for %s := %s; ; %s {", v, conv(start), post)
-		w("\tif !(%s %s %s) {", v, cmp, conv(bound))
+		w("\tif !(%s) {", tst(cmp))
 		w("\t\tbreak")
 		w("\t}")
 		w("\t%s", recCall())
@@ -315,7 +328,7 @@ func genLoop(r *rand.Rand, b *strings.Builder, id *int, depth int, outerVar stri
 		w("\t%s", recCall())
 		body(ind + "\t")
 		w("\t%s", post)
-		w("\tif %s %s %s {", v, negCmp(cmp), conv(bound))
+		w("\tif %s {", tst(negCmp(cmp)))
 		w("\t\tbreak")
 		w("\t}")
 		w("}")
@@ -649,7 +662,7 @@ func judge(res *evid.Result, fm fnMeta, fn *ssa.Function, sites map[int]*recSite
 			continue
 		}
 		e := &env{args: vec, phi: a.startEnv}
-		shape := fmt.Sprintf("%s%s|%s|%s|%s|%s|%s%s", m.Form, m.Hdr, m.Cmp, m.Step, m.Type, boundKind(m.Bound), m.Nested, m.Extra)
+		shape := fmt.Sprintf("%s%s%s|%s|%s|%s|%s|%s%s", m.Form, m.Hdr, map[bool]string{true: "~mirrored", false: ""}[m.Swap], m.Cmp, m.Step, m.Type, boundKind(m.Bound), m.Nested, m.Extra)
 		// (i) induction variables
 		overflowed := false
 		for j, v := range s.args {
